@@ -92,9 +92,10 @@ impl CanCastTo<ResolvedParamType> for ExpressionType {
                 ResolvedParamType::UserDefined(target_type_name) => type_name == target_type_name,
                 _ => false,
             },
+            // an array is passed as a whole, its elements cannot be converted
             Self::Array(box_element_type) => match target {
                 ResolvedParamType::Array(target_element_type) => {
-                    box_element_type.can_cast_to(target_element_type)
+                    is_same_type(box_element_type, target_element_type)
                 }
                 _ => false,
             },
@@ -102,9 +103,21 @@ impl CanCastTo<ResolvedParamType> for ExpressionType {
     }
 }
 
-impl CanCastTo<Box<ResolvedParamType>> for Box<ExpressionType> {
-    fn can_cast_to(&self, target: &Box<ResolvedParamType>) -> bool {
-        self.as_ref().can_cast_to(target.as_ref())
+fn is_same_type(element_type: &ExpressionType, target: &ResolvedParamType) -> bool {
+    match element_type {
+        ExpressionType::BuiltIn(q) => {
+            matches!(target, ResolvedParamType::BuiltIn(q_target, _) if q == q_target)
+        }
+        ExpressionType::UserDefined(type_name) => {
+            matches!(target, ResolvedParamType::UserDefined(target_type_name) if type_name == target_type_name)
+        }
+        ExpressionType::Array(box_element_type) => match target {
+            ResolvedParamType::Array(target_element_type) => {
+                is_same_type(box_element_type, target_element_type)
+            }
+            _ => false,
+        },
+        ExpressionType::FixedLengthString(_) | ExpressionType::Unresolved => false,
     }
 }
 
